@@ -33,6 +33,8 @@ type Outcome struct {
 	Tried        int               `json:"candidates_run,omitempty"`
 	Skipped      int               `json:"candidates_outside_requires,omitempty"`
 	Inconclusive int               `json:"candidates_inconclusive,omitempty"`
+	ClauseEvals  int               `json:"clause_evaluations_conclusive,omitempty"`
+	ClauseSkips  int               `json:"clause_evaluations_inconclusive,omitempty"`
 	Reason       string            `json:"reason,omitempty"` // why no replay was possible / nothing was found
 	Seconds      float64           `json:"seconds,omitempty"`
 }
@@ -434,6 +436,11 @@ func Try(p *vc.Program, repo, work string, ob vc.OblResult) (out Outcome) {
 		}
 		for _, e := range allEnsures {
 			holds, conclusive := evalBool(in, e.E)
+			if conclusive {
+				out.ClauseEvals++
+			} else {
+				out.ClauseSkips++
+			}
 			if conclusive && !holds {
 				out.Found, out.Input = true, describe()
 				out.Observed = strings.Join(shown, ", ") + "  (violates the function's ensures clause " + e.Label + ": " + e.Text + ")"
